@@ -903,4 +903,32 @@ example : (parseFile [] fExG).length = 3 ∧ (parseFile [] fExG).all entryShapeB
     updateFileF fxAll [] orcG fltG (updateFileF fxAll [] orcG fltG fExG) = updateFileF fxAll [] orcG fltG fExG := by
   decide +kernel
 
+/-- Attribute combinations and the error branch through the general theorems, on one concrete file:
+`:error` (tree has an error: passes), `:error :fail-fast`-free `:cst :skip`, `:platform(other)`, a test whose parse
+has an ERROR and a wrong expectation (kept; the run reports `Err`), a passing `:fail-fast` test, a stale expectation that gets updated.  All decidable
+hypotheses hold, the run's status is `Err` (`updateStatus = false`), the file is rewritten, and a second update is
+the identity. -/
+def fExA : Str :=
+  ("===\nerr\n:error\n===\ne\n---\n\n(old)\n\n===\nsk\n:cst\n:skip\n===\ns\n---\n\n0:0 - 0:1 kept\n\n" ++
+   "===\nmac\n:platform(macos)\n===\nm\n---\n\n(m)\n\n===\nbroken\n===\nx\n---\n\n(wrong)\n\n" ++
+   "===\nff\n:fail-fast\n===\ng\n---\n\n(source)\n\n===\nstale\n===\nu\n---\n\n(stale)\n").toList
+def orcA : Oracle := fun _ inp =>
+  if inp == ['e'] || inp == ['x'] then
+    some { sexpFields := "(source (ERROR))".toList, sexpPlain := "(source (ERROR))".toList, cst := "0:0 ERROR".toList, hasError := true }
+  else some { sexpFields := sxSource, sexpPlain := sxSource, cst := "0:0 - 0:1 new".toList, hasError := false }
+example : (parseFile "linux".toList fExA).length = 6 ∧ (parseFile "linux".toList fExA).all entryShapeB = true ∧
+    (parseFile "linux".toList fExA).all entryExpectB = true ∧
+    (parseFile "linux".toList fExA).all (fun e => decide (e.attrs = flagsOf "linux".toList e.name e.attrsStr)) = true ∧
+    updateStatus fxAll orcA (fun _ => true) (parseFile "linux".toList fExA) false = false ∧
+    updateFile fxAll "linux".toList orcA fExA ≠ fExA ∧
+    updateFile fxAll "linux".toList orcA (updateFile fxAll "linux".toList orcA fExA) = updateFile fxAll "linux".toList orcA fExA := by
+  decide +kernel
+
+/-- Witness for the hypothesis `EntryOKG.out` (expectation empty or ONE balanced S-expression): an expectation with two
+top-level groups, kept because the parse has an error, is re-formatted differently by every further update
+(`(a) (b)` → `(a)(b)` → `(a` / `  (b))`), so the second update changes the file again — for the repaired code too. -/
+def fExJunk : Str := "===\nj\n===\nx\n---\n\n(a) (b)\n".toList
+theorem idempotent_fails_two_toplevel_expectation :
+    updateFile fxAll [] orcA (updateFile fxAll [] orcA fExJunk) ≠ updateFile fxAll [] orcA fExJunk := by decide +kernel
+
 end TsVerif.C20
